@@ -196,7 +196,7 @@ class TypesVariant(OracleVariant):
             return z3.SetAdd(E, S.type_of(f))
         if self.Kop == S.FUNCTION:
             fid = Ty.fid(S.pl_ty(S.pl_node(f)))
-            z = z3.SetAdd(E, S.fun_ret(fid))
+            z = z3.SetAdd(union(self.args, Ty), S.fun_ret(fid))      # the sorts inside the arguments count too
             for i in range(self.k):
                 z = z3.SetAdd(z, S.fun_param(fid, S.K(i)))
             return z
